@@ -369,7 +369,7 @@ Qed.
 Lemma dispatch_loop_quiet fuel : forall s wd name bits cnt w,
   find_w (wls s) wd = Some w -> (length (w_local w) <= fuel)%nat ->
   snd (fst (dispatch_loop fuel s wd name bits (fun _ => []) cnt)) =
-  map (fun h => ICb h (e_cb (gete s h)) name bits) (w_local w).
+  map (fun h => ICb h (e_cb (gete s h)) name bits (e_active (gete s h))) (w_local w).
 Proof.
   induction fuel as [|f IH]; intros s wd name bits cnt w Fw L; cbn [dispatch_loop].
   - destruct (w_local w); [reflexivity|cbn in L; lia].
@@ -398,7 +398,7 @@ Theorem event_reaches_all_quiet :
   exists tail,
     snd (fst (dispatch_one s (wd, mask, nm) (fun _ => []) cnt)) =
       map (fun h => ICb h (e_cb (gete s h)) (match nm with Some n => n | None => w_base w end)
-                        (ev_bits mask)) (w_hs w) ++ tail /\
+                        (ev_bits mask) (e_active (gete s h))) (w_hs w) ++ tail /\
     (tail = [] \/ tail = [IRm wd]).
 Proof.
   intros s wd mask nm w cnt Fw. unfold dispatch_one. rewrite Fw.
@@ -456,11 +456,622 @@ Qed.
 Theorem cb_is_head_of_local :
   forall f s wd name bits beh cnt w h rest,
   find_w (wls s) wd = Some w -> w_local w = h :: rest ->
-  exists s' evs n, dispatch_loop (S f) s wd name bits beh cnt = (s', ICb h (e_cb (gete s h)) name bits :: evs, n).
+  exists s' evs n, dispatch_loop (S f) s wd name bits beh cnt =
+                   (s', ICb h (e_cb (gete s h)) name bits (e_active (gete s h)) :: evs, n).
 Proof.
   intros f s wd name bits beh cnt w h rest Fw Lw. cbn [dispatch_loop]. rewrite Fw, Lw.
   set (s1 := set_wls s _).
   destruct (iapis s1 (beh cnt)) as [s2 e2].
   destruct (dispatch_loop f s2 wd name bits beh (S cnt)) as [[s3 e3] n3].
   exists s3, (e2 ++ e3), n3. reflexivity.
+Qed.
+
+(* ------------------------------------------------------------------ *)
+(* C17_no_cb_for_stopped: list membership                              *)
+(* ------------------------------------------------------------------ *)
+From UV Require Import Proofs.FsPollProofs.
+From Coq Require Import Permutation.
+
+Lemma gete_upd_e s h f h' :
+  gete (upd_e s h f) h' =
+  if Nat.eqb h h' && Nat.ltb h (length (ehs s)) then f (gete s h') else gete s h'.
+Proof.
+  unfold gete, upd_e, set_ehs. cbn [ehs].
+  destruct (Nat.eqb_spec h h') as [->|N]; cbn [andb].
+  - destruct (Nat.ltb_spec h' (length (ehs s))).
+    + apply nth_upd_same; auto.
+    + rewrite nth_upd_out by auto. reflexivity.
+  - apply nth_upd_other; auto.
+Qed.
+
+(* the handles linked in the list of descriptor wd (in w->watchers or in the local queue of
+   the iteration) are active handles whose wd is wd, each linked once; descriptors are unique *)
+Definition Mem (s : ist) : Prop :=
+  NoDup (map w_wd (wls s)) /\
+  (forall wd w h, find_w (wls s) wd = Some w -> In h (w_hs w) \/ In h (w_local w) ->
+                  e_active (gete s h) = true /\ e_wd (gete s h) = wd) /\
+  (forall wd w, find_w (wls s) wd = Some w -> NoDup (w_hs w ++ w_local w)).
+
+Lemma active_lt s h : e_active (gete s h) = true -> (h < length (ehs s))%nat.
+Proof.
+  intros A. destruct (Nat.lt_ge_cases h (length (ehs s))); auto.
+  unfold gete in A. rewrite nth_overflow in A by auto. discriminate.
+Qed.
+
+(* a handle update that keeps active and wd *)
+Lemma Mem_upd_e_keep s h f :
+  (forall e, e_active (f e) = e_active e /\ e_wd (f e) = e_wd e) -> Mem s -> Mem (upd_e s h f).
+Proof.
+  intros F (ND & M & NL). split; [exact ND|]. split; [|exact NL].
+  intros wd w h' Fw I. change (wls (upd_e s h f)) with (wls s) in Fw.
+  destruct (M wd w h' Fw I) as [A B]. rewrite gete_upd_e.
+  destruct (Nat.eqb h h' && Nat.ltb h (length (ehs s))); auto.
+  destruct (F (gete s h')) as [F1 F2]. rewrite F1, F2. auto.
+Qed.
+
+Lemma NoDup_snoc_mid {A} (a b : list A) x :
+  NoDup (a ++ b) -> ~ In x a -> ~ In x b -> NoDup ((a ++ [x]) ++ b).
+Proof.
+  intros N Na Nb. rewrite <- app_assoc. cbn [app].
+  apply (Permutation_NoDup (Permutation_middle a b x)).
+  constructor; auto. rewrite in_app_iff. tauto.
+Qed.
+
+Lemma NoDup_app_l {A} (a b : list A) : NoDup (a ++ b) -> NoDup a.
+Proof.
+  induction a as [|x a IH]; cbn [app]; intros N; [constructor|].
+  inversion N as [|y l Hn Hd]; subst. constructor; [|apply IH; auto].
+  intros I. apply Hn. apply in_app_iff. auto.
+Qed.
+
+Lemma rm_nat_app h a b : rm_nat h (a ++ b) = rm_nat h a ++ rm_nat h b.
+Proof. unfold rm_nat. apply filter_app. Qed.
+
+Lemma in_rm_nat h x l : In x (rm_nat h l) <-> In x l /\ x <> h.
+Proof.
+  unfold rm_nat. rewrite filter_In. split; intros [A B]; split; auto.
+  - intros ->. rewrite Nat.eqb_refl in B. discriminate.
+  - destruct (Nat.eqb_spec h x); [congruence|reflexivity].
+Qed.
+
+Lemma Mem_maybe_free s wd : Mem s -> Mem (fst (maybe_free s wd)).
+Proof.
+  intros (ND & M & NL). unfold maybe_free.
+  destruct (find_w (wls s) wd) as [w0|] eqn:F0; cbn [fst]; [|exact (conj ND (conj M NL))].
+  destruct (negb (w_iter w0) && match w_hs w0 with [] => true | _ => false end); cbn [fst];
+    [|exact (conj ND (conj M NL))].
+  destruct (del_w_keys (wls s) wd ND) as (A & B & C).
+  split; [exact A|]. cbn [wls set_wls]. change (gete (set_wls s (del_w (wls s) wd))) with (gete s).
+  split.
+  - intros wd' w h Fw I. destruct (Z.eq_dec wd' wd) as [->|N]; [congruence|].
+    rewrite find_del_other in Fw by auto. eapply M; eauto.
+  - intros wd' w Fw. destruct (Z.eq_dec wd' wd) as [->|N]; [congruence|].
+    rewrite find_del_other in Fw by auto. eapply NL; eauto.
+Qed.
+
+Lemma Mem_ev_stop s h : Mem s -> Mem (fst (ev_stop s h)).
+Proof.
+  intros (ND & M & NL). unfold ev_stop. destruct (e_active (gete s h)) eqn:Ah; cbn [negb]; [|exact (conj ND (conj M NL))].
+  apply Mem_maybe_free.
+  set (wd := e_wd (gete s h)).
+  set (s1 := upd_e s h _).
+  assert (G1 : forall h', h' <> h -> gete s1 h' = gete s h').
+  { intros h' Ne. unfold s1. rewrite gete_upd_e. destruct (Nat.eqb_spec h h'); [congruence|reflexivity]. }
+  split; [cbn [wls set_wls]; rewrite map_upd_w; auto|].
+  cbn [wls set_wls]. change (wls s1) with (wls s).
+  change (gete (set_wls s1 (upd_w (wls s) wd
+           (fun w => mkW (w_wd w) (w_base w) (rm_nat h (w_hs w)) (rm_nat h (w_local w)) (w_iter w)))))
+    with (gete s1).
+  split.
+  - intros wd' w h' Fw I. rewrite find_upd_w in Fw by auto.
+    destruct (Z.eqb_spec wd' wd) as [->|N].
+    + destruct (find_w (wls s) wd) as [w0|] eqn:F0; [|discriminate]. cbn in Fw. injection Fw as <-.
+      cbn [w_hs w_local] in I. rewrite !in_rm_nat in I.
+      assert (Ne : h' <> h) by tauto. rewrite G1 by auto. apply (M wd w0 h' F0). tauto.
+    + assert (Ne : h' <> h).
+      { intros ->. destruct (M wd' w h Fw I) as [_ E]. fold wd in E. congruence. }
+      rewrite G1 by auto. apply (M wd' w h' Fw I).
+  - intros wd' w Fw. rewrite find_upd_w in Fw by auto.
+    destruct (Z.eqb_spec wd' wd) as [->|N]; [|eapply NL; eauto].
+    destruct (find_w (wls s) wd) as [w0|] eqn:F0; [|discriminate]. cbn in Fw. injection Fw as <-.
+    cbn [w_hs w_local]. rewrite <- rm_nat_app. unfold rm_nat. apply NoDup_filter. eapply NL; eauto.
+Qed.
+
+Lemma Mem_ev_start s h cb base wd0 :
+  (h < length (ehs s))%nat -> Mem s -> Mem (fst (ev_start s h cb base wd0)).
+Proof.
+  intros Lh (ND & M & NL). unfold ev_start.
+  destruct (e_active (gete s h)) eqn:Ah; [exact (conj ND (conj M NL))|].
+  destruct (wd0 <? 0); [exact (conj ND (conj M NL))|]. cbn [fst].
+  set (s1 := match find_w (wls s) wd0 with Some _ => s | None => _ end).
+  assert (E1 : ehs s1 = ehs s) by (unfold s1; destruct (find_w (wls s) wd0); reflexivity).
+  assert (H1 : NoDup (map w_wd (wls s1)) /\
+               (forall wd w, find_w (wls s1) wd = Some w ->
+                  (forall h', In h' (w_hs w) \/ In h' (w_local w) -> e_active (gete s h') = true /\ e_wd (gete s h') = wd) /\
+                  NoDup (w_hs w ++ w_local w)) /\
+               (exists w, find_w (wls s1) wd0 = Some w)).
+  { unfold s1. destruct (find_w (wls s) wd0) as [wx|] eqn:F0.
+    - split; [auto|]. split; [|eauto]. intros wd w Fw. split; [intros h' I; eapply M; eauto|eapply NL; eauto].
+    - cbn [wls set_wls]. split; [rewrite map_app; cbn [map]; apply NoDup_snoc; auto; apply find_none_notin; auto|].
+      split.
+      + intros wd w Fw. rewrite find_app in Fw.
+        destruct (find_w (wls s) wd) eqn:F.
+        * injection Fw as <-. split; [intros h' I; eapply M; eauto|eapply NL; eauto].
+        * cbn [w_wd] in Fw. destruct (wd0 =? wd); [|discriminate]. injection Fw as <-.
+          cbn. split; [intros h' [[]|[]]|constructor].
+      + rewrite find_app, F0. cbn [w_wd]. rewrite Z.eqb_refl. eauto. }
+  destruct H1 as (ND1 & M1 & (w00 & F00)).
+  set (f := fun w => mkW (w_wd w) (w_base w) (w_hs w ++ [h]) (w_local w) (w_iter w)).
+  set (g := fun e => mkE true (e_closing e) (e_closed e) wd0 cb).
+  assert (Gh : gete (upd_e (set_wls s1 (upd_w (wls s1) wd0 f)) h g) h = g (gete s h)).
+  { rewrite gete_upd_e, Nat.eqb_refl. cbn [andb ehs set_wls]. rewrite E1.
+    destruct (Nat.ltb_spec h (length (ehs s))); [|lia]. unfold gete. cbn [ehs set_wls]. rewrite E1. reflexivity. }
+  assert (Go : forall h', h' <> h -> gete (upd_e (set_wls s1 (upd_w (wls s1) wd0 f)) h g) h' = gete s h').
+  { intros h' Ne. rewrite gete_upd_e. destruct (Nat.eqb_spec h h'); [congruence|].
+    unfold gete. cbn [ehs set_wls]. rewrite E1. reflexivity. }
+  split; [cbn [wls upd_e set_ehs set_wls]; rewrite map_upd_w; auto|].
+  cbn [wls upd_e set_ehs set_wls].
+  change (gete (set_ehs (set_wls s1 (upd_w (wls s1) wd0 f)) (upd h g (ehs (set_wls s1 (upd_w (wls s1) wd0 f))))))
+    with (gete (upd_e (set_wls s1 (upd_w (wls s1) wd0 f)) h g)).
+  assert (Inact : forall wd w, find_w (wls s1) wd = Some w -> ~ In h (w_hs w) /\ ~ In h (w_local w)).
+  { intros wd w Fw. destruct (M1 wd w Fw) as [Mw _].
+    split; intros I; destruct (Mw h) as [A _]; auto; congruence. }
+  split.
+  - intros wd w h' Fw I. rewrite find_upd_w in Fw by auto.
+    destruct (Z.eqb_spec wd wd0) as [->|N].
+    + rewrite F00 in Fw. cbn in Fw. injection Fw as <-. cbn [f w_hs w_local] in I.
+      destruct (Nat.eq_dec h' h) as [->|Ne]; [rewrite Gh; cbn; auto|].
+      rewrite Go by auto. destruct (M1 wd0 w00 F00) as [Mw _]. apply Mw.
+      destruct I as [I|I]; [|right; exact I]. apply in_app_iff in I.
+      destruct I as [I|[I|[]]]; [left; exact I|congruence].
+    + destruct (M1 wd w Fw) as [Mw _]. destruct (Inact wd w Fw) as [I1 I2].
+      assert (Ne : h' <> h) by (intros ->; tauto).
+      rewrite Go by auto. apply Mw; auto.
+  - intros wd w Fw. rewrite find_upd_w in Fw by auto.
+    destruct (Z.eqb_spec wd wd0) as [->|N]; [|apply (M1 wd w Fw)].
+    rewrite F00 in Fw. cbn in Fw. injection Fw as <-. cbn [f w_hs w_local].
+    destruct (M1 wd0 w00 F00) as [_ Nw]. destruct (Inact wd0 w00 F00) as [I1 I2].
+    apply NoDup_snoc_mid; auto.
+Qed.
+
+Lemma Mem_iapi s o : Mem s -> Mem (fst (iapi s o)).
+Proof.
+  intros H. destruct o; cbn [iapi]; auto.
+  - cbn [fst]. destruct H as (ND & M & NL). split; [exact ND|]. split; [|exact NL].
+    intros wd w h Fw I. change (wls (set_ehs s (ehs s ++ [mkE false false false (-1) 0]))) with (wls s) in Fw.
+    destruct (M wd w h Fw I) as [A B].
+    assert (E : gete (set_ehs s (ehs s ++ [mkE false false false (-1) 0])) h = gete s h).
+    { unfold gete, set_ehs. cbn [ehs]. apply app_nth1. apply active_lt; auto. }
+    rewrite E. auto.
+  - destruct (ivalid s h && negb (e_closing (gete s h))) eqn:G; auto.
+    apply andb_true_iff in G. destruct G as [V _]. unfold ivalid in V. apply Nat.ltb_lt in V.
+    pose proof (Mem_ev_start s h cb base wd V H) as X. destruct (ev_start s h cb base wd); auto.
+  - destruct (ivalid s h && negb (e_closed (gete s h))); auto.
+    pose proof (Mem_ev_stop s h H) as X. destruct (ev_stop s h); auto.
+  - destruct (ivalid s h && negb (e_closing (gete s h))); auto.
+    unfold ev_close. set (s0 := upd_e s h _).
+    assert (H0 : Mem s0) by (apply Mem_upd_e_keep; auto).
+    pose proof (Mem_ev_stop s0 h H0) as X. destruct (ev_stop s0 h) as [s1 ev]. cbn [fst] in *.
+    exact X.
+Qed.
+
+Lemma Mem_iapis os : forall s, Mem s -> Mem (fst (iapis s os)).
+Proof.
+  induction os as [|o os IH]; intros s H; cbn [iapis]; auto.
+  pose proof (Mem_iapi s o H) as X. destruct (iapi s o) as [s1 e1]. cbn [fst] in X.
+  pose proof (IH s1 X) as Y. destruct (iapis s1 os) as [s2 e2]. exact Y.
+Qed.
+
+Definition okI (e : ievent) : Prop := match e with ICb _ _ _ _ a => a = true | _ => True end.
+
+Lemma iapis_okI os : forall s, Forall okI (snd (iapis s os)).
+Proof.
+  induction os as [|o os IH]; intros s; cbn [iapis]; [constructor|].
+  assert (A : Forall okI (snd (iapi s o))).
+  { destruct o; cbn [iapi]; try constructor.
+    - destruct (ivalid s h && negb (e_closing (gete s h))); [|constructor].
+      destruct (ev_start s h cb base wd). cbn. repeat constructor.
+    - destruct (ivalid s h && negb (e_closed (gete s h))); [|constructor].
+      unfold ev_stop. destruct (negb (e_active (gete s h))); [cbn; repeat constructor|].
+      unfold maybe_free. destruct (find_w _ _); [|cbn; repeat constructor].
+      destruct (negb (w_iter w) && _); cbn; repeat constructor.
+    - destruct (ivalid s h && negb (e_closing (gete s h))); [|constructor].
+      unfold ev_close, ev_stop. destruct (negb (e_active _)); [cbn; constructor|].
+      unfold maybe_free. destruct (find_w _ _); [|cbn; constructor].
+      destruct (negb (w_iter w) && _); cbn; repeat constructor. }
+  destruct (iapi s o) as [s1 e1]. specialize (IH s1). destruct (iapis s1 os) as [s2 e2].
+  cbn [snd] in *. apply Forall_app. auto.
+Qed.
+
+Lemma Mem_upd_w_same_members s wd f :
+  (forall w, w_wd (f w) = w_wd w) ->
+  (forall w h, In h (w_hs (f w)) \/ In h (w_local (f w)) -> In h (w_hs w) \/ In h (w_local w)) ->
+  (forall w, NoDup (w_hs w ++ w_local w) -> NoDup (w_hs (f w) ++ w_local (f w))) ->
+  Mem s -> Mem (set_wls s (upd_w (wls s) wd f)).
+Proof.
+  intros F1 F2 F3 (ND & M & NL). split; [cbn [wls set_wls]; rewrite map_upd_w; auto|].
+  cbn [wls set_wls]. change (gete (set_wls s (upd_w (wls s) wd f))) with (gete s).
+  split.
+  - intros wd' w h Fw I. rewrite find_upd_w in Fw by auto.
+    destruct (Z.eqb_spec wd' wd) as [->|N]; [|eapply M; eauto].
+    destruct (find_w (wls s) wd) as [w0|] eqn:F0; [|discriminate]. cbn in Fw. injection Fw as <-.
+    eapply M; eauto.
+  - intros wd' w Fw. rewrite find_upd_w in Fw by auto.
+    destruct (Z.eqb_spec wd' wd) as [->|N]; [|eapply NL; eauto].
+    destruct (find_w (wls s) wd) as [w0|] eqn:F0; [|discriminate]. cbn in Fw. injection Fw as <-.
+    apply F3. eapply NL; eauto.
+Qed.
+
+Lemma dispatch_loop_Mem fuel : forall s wd name bits beh cnt,
+  Mem s ->
+  Mem (fst (fst (dispatch_loop fuel s wd name bits beh cnt))) /\
+  Forall okI (snd (fst (dispatch_loop fuel s wd name bits beh cnt))).
+Proof.
+  induction fuel as [|f IH]; intros s wd name bits beh cnt H; cbn [dispatch_loop]; [split; [auto|constructor]|].
+  destruct (find_w (wls s) wd) as [w|] eqn:Fw; [|split; [auto|constructor]].
+  destruct (w_local w) as [|h rest] eqn:Lw; [split; [auto|constructor]|].
+  set (s1 := set_wls s _).
+  assert (Ah : e_active (gete s1 h) = true).
+  { change (gete s1 h) with (gete s h). destruct H as (_ & M & _).
+    apply (M wd w h Fw). right. rewrite Lw. left. reflexivity. }
+  assert (H1 : Mem s1).
+  { unfold s1. destruct H as (ND & M & NL).
+    split; [cbn [wls set_wls]; rewrite map_upd_w; auto|].
+    cbn [wls set_wls]. split.
+    - intros wd' w' h' Fw' I. rewrite find_upd_w in Fw' by auto.
+      destruct (Z.eqb_spec wd' wd) as [->|N]; [|eapply M; eauto].
+      rewrite Fw in Fw'. cbn in Fw'. injection Fw' as <-. cbn [w_hs w_local] in I.
+      apply (M wd w h' Fw). rewrite Lw. rewrite in_app_iff in I. cbn in *. tauto.
+    - intros wd' w' Fw'. rewrite find_upd_w in Fw' by auto.
+      destruct (Z.eqb_spec wd' wd) as [->|N]; [|eapply NL; eauto].
+      rewrite Fw in Fw'. cbn in Fw'. injection Fw' as <-. cbn [w_hs w_local].
+      pose proof (NL wd w Fw) as X. rewrite Lw in X. rewrite <- app_assoc. exact X. }
+  pose proof (Mem_iapis (beh cnt) s1 H1) as X.
+  pose proof (iapis_okI (beh cnt) s1) as XO.
+  destruct (iapis s1 (beh cnt)) as [s2 e2]. cbn [fst snd] in *.
+  pose proof (IH s2 wd name bits beh (S cnt) X) as [Y YO].
+  destruct (dispatch_loop f s2 wd name bits beh (S cnt)) as [[s3 e3] n3]. cbn [fst snd] in *.
+  split; [exact Y|]. constructor; [exact Ah|]. apply Forall_app. auto.
+Qed.
+
+Lemma dispatch_one_Mem s e beh cnt :
+  Mem s -> Mem (fst (fst (dispatch_one s e beh cnt))) /\ Forall okI (snd (fst (dispatch_one s e beh cnt))).
+Proof.
+  intros H. unfold dispatch_one. destruct e as [[wd mask] nm].
+  destruct (find_w (wls s) wd) as [w|] eqn:Fw; [|split; [auto|constructor]].
+  set (s1 := set_wls s _).
+  assert (H1 : Mem s1).
+  { unfold s1. apply Mem_upd_w_same_members; auto.
+    - intros w0 h I. cbn [w_hs w_local] in I. destruct I as [[]|I]; auto.
+    - intros w0 N. cbn [w_hs w_local app]. apply NoDup_app_l in N. exact N. }
+  pose proof (dispatch_loop_Mem (length (w_hs w)) s1 wd
+                (match nm with Some n => n | None => w_base w end) (ev_bits mask) beh cnt H1) as [X XO].
+  destruct (dispatch_loop (length (w_hs w)) s1 wd _ (ev_bits mask) beh cnt) as [[s2 e2] n2]. cbn [fst snd] in *.
+  set (s3 := set_wls s2 _).
+  assert (H3 : Mem s3) by (unfold s3; apply Mem_upd_w_same_members; auto).
+  pose proof (Mem_maybe_free s3 wd H3) as Y.
+  assert (YO : Forall okI (snd (maybe_free s3 wd))).
+  { unfold maybe_free. destruct (find_w (wls s3) wd) as [wz|]; [|cbn; constructor].
+    destruct (negb (w_iter wz) && _); cbn; repeat constructor. }
+  destruct (maybe_free s3 wd) as [s4 e4]. cbn [fst snd] in *.
+  split; [exact Y|]. apply Forall_app. auto.
+Qed.
+
+Lemma dispatch_Mem evs : forall s beh cnt,
+  Mem s -> Mem (fst (fst (dispatch s evs beh cnt))) /\ Forall okI (snd (fst (dispatch s evs beh cnt))).
+Proof.
+  induction evs as [|e evs IH]; intros s beh cnt H; cbn [dispatch]; [split; [auto|constructor]|].
+  pose proof (dispatch_one_Mem s e beh cnt H) as [X XO].
+  destruct (dispatch_one s e beh cnt) as [[s1 e1] n1]. cbn [fst snd] in *.
+  pose proof (IH s1 beh n1 X) as [Y YO]. destruct (dispatch s1 evs beh n1) as [[s2 e2] n2].
+  cbn [fst snd] in *. split; [exact Y|]. apply Forall_app. auto.
+Qed.
+
+Lemma Mem_fold_closed l : forall s, Mem s ->
+  Mem (fold_left (fun s h => upd_e s h (fun e => mkE (e_active e) (e_closing e) true (e_wd e) (e_cb e))) l s).
+Proof.
+  induction l as [|h l IH]; intros s H; cbn [fold_left]; auto.
+  apply IH. apply Mem_upd_e_keep; auto.
+Qed.
+
+Lemma Mem_init : Mem iinit.
+Proof. split; [constructor|]. split; cbn; intros; discriminate. Qed.
+
+(* C17_no_cb_for_stopped: in the trace of every script -- any kernel answers, any events, any API
+   calls made from inside the callbacks -- every fs_event callback goes to a handle that is
+   active at that moment ([ICb]'s last field is that ghost) *)
+Theorem no_cb_for_stopped : forall os s beh cnt,
+  Mem s -> Forall okI (snd (irun s os beh cnt)).
+Proof.
+  induction os as [|o os IH]; intros s beh cnt H; [constructor|].
+  destruct o; cbn [irun].
+  5:{ pose proof (dispatch_Mem evs s beh cnt H) as [X XO].
+      destruct (dispatch s evs beh cnt) as [[s1 e1] n1]. cbn [fst snd] in *.
+      unfold run_eclosing.
+      set (s2 := set_eclosing _ []).
+      assert (X2 : Mem s2).
+      { exact (Mem_fold_closed (eclosing s1) s1 X). }
+      pose proof (IH s2 beh n1 X2) as Y. destruct (irun s2 os beh n1) as [s3 e3]. cbn [snd] in *.
+      apply Forall_app. split; auto. apply Forall_app. split; auto.
+      apply Forall_forall. intros e I. apply in_map_iff in I. destruct I as (h & <- & _). exact I. }
+  all: match goal with
+       | |- context [iapi ?s0 ?o] =>
+           pose proof (Mem_iapi s0 o H) as X; pose proof (iapis_okI [o] s0) as XO; cbn [iapis] in XO;
+           destruct (iapi s0 o) as [s1 e1]; cbn [fst snd] in *; rewrite app_nil_r in XO;
+           pose proof (IH s1 beh cnt X) as Y; destruct (irun s1 os beh cnt) as [s2 e2];
+           cbn [snd] in *; apply Forall_app; auto
+       end.
+Qed.
+
+(* ------------------------------------------------------------------ *)
+(* C17_event_reaches_all with API calls inside the callbacks           *)
+(* ------------------------------------------------------------------ *)
+Definition cbs_of (h : nat) (l : list ievent) : list ievent :=
+  filter (fun e => match e with ICb h' _ _ _ _ => Nat.eqb h h' | _ => false end) l.
+
+Lemma cbs_of_app h a b : cbs_of h (a ++ b) = cbs_of h a ++ cbs_of h b.
+Proof. apply filter_app. Qed.
+
+Lemma iapis_no_cb h os : forall s, cbs_of h (snd (iapis s os)) = [].
+Proof.
+  induction os as [|o os IH]; intros s; cbn [iapis]; auto.
+  assert (A : cbs_of h (snd (iapi s o)) = []).
+  { destruct o; cbn [iapi]; auto.
+    - destruct (ivalid s h0 && negb (e_closing (gete s h0))); auto.
+      destruct (ev_start s h0 cb base wd). reflexivity.
+    - destruct (ivalid s h0 && negb (e_closed (gete s h0))); auto.
+      unfold ev_stop. destruct (negb (e_active (gete s h0))); auto.
+      unfold maybe_free. destruct (find_w _ _) as [wz|]; auto.
+      destruct (negb (w_iter wz) && _); reflexivity.
+    - destruct (ivalid s h0 && negb (e_closing (gete s h0))); auto.
+      unfold ev_close, ev_stop. destruct (negb (e_active _)); auto.
+      unfold maybe_free. destruct (find_w _ _) as [wz|]; auto.
+      destruct (negb (w_iter wz) && _); reflexivity. }
+  destruct (iapi s o) as [s1 e1]. specialize (IH s1). destruct (iapis s1 os) as [s2 e2].
+  cbn [snd] in *. rewrite cbs_of_app, A, IH. reflexivity.
+Qed.
+
+Lemma Mem_loop_step s wd w h rest :
+  Mem s -> find_w (wls s) wd = Some w -> w_local w = h :: rest ->
+  Mem (set_wls s (upd_w (wls s) wd (fun w => mkW (w_wd w) (w_base w) (w_hs w ++ [h]) rest (w_iter w)))).
+Proof.
+  intros (ND & M & NL) Fw Lw.
+  split; [cbn [wls set_wls]; rewrite map_upd_w; auto|].
+  cbn [wls set_wls]. split.
+  - intros wd' w' h' Fw' I. rewrite find_upd_w in Fw' by auto.
+    destruct (Z.eqb_spec wd' wd) as [->|N]; [|eapply M; eauto].
+    rewrite Fw in Fw'. cbn in Fw'. injection Fw' as <-. cbn [w_hs w_local] in I.
+    apply (M wd w h' Fw). rewrite Lw. rewrite in_app_iff in I. cbn in *. tauto.
+  - intros wd' w' Fw'. rewrite find_upd_w in Fw' by auto.
+    destruct (Z.eqb_spec wd' wd) as [->|N]; [|eapply NL; eauto].
+    rewrite Fw in Fw'. cbn in Fw'. injection Fw' as <-. cbn [w_hs w_local].
+    pose proof (NL wd w Fw) as X. rewrite Lw in X. rewrite <- app_assoc. exact X.
+Qed.
+
+(* the list wd is being iterated, its local queue has at most n entries, and h is / is not in it *)
+Definition Tr (wd : Z) (h : nat) (n : nat) (inl : bool) (s : ist) : Prop :=
+  Mem s /\ exists w, find_w (wls s) wd = Some w /\ w_iter w = true /\ (length (w_local w) <= n)%nat /\
+                     (if inl then In h (w_local w) else ~ In h (w_local w)).
+
+Definition touches (h : nat) (o : iop) : Prop := o = IStop h \/ o = IClose h.
+
+Lemma length_rm_nat h l : (length (rm_nat h l) <= length l)%nat.
+Proof. unfold rm_nat. induction l as [|x l IH]; cbn; auto. destruct (negb (Nat.eqb h x)); cbn; lia. Qed.
+
+Lemma gete_maybe_free s wd h : gete (fst (maybe_free s wd)) h = gete s h.
+Proof.
+  unfold maybe_free. destruct (find_w (wls s) wd) as [wz|]; auto.
+  destruct (negb (w_iter wz) && _); reflexivity.
+Qed.
+
+Lemma Tr_stop wd h n inl s h' :
+  (inl = true -> h' <> h) -> Tr wd h n inl s ->
+  Tr wd h n inl (fst (ev_stop s h')) /\ (h' <> h -> gete (fst (ev_stop s h')) h = gete s h).
+Proof.
+  intros Ne (M & w & Fw & Iw & Ln & P).
+  split.
+  - split; [apply Mem_ev_stop; auto|].
+    unfold ev_stop. destruct (negb (e_active (gete s h'))); [exists w; auto|].
+    set (wd' := e_wd (gete s h')).
+    set (g := fun w => mkW (w_wd w) (w_base w) (rm_nat h' (w_hs w)) (rm_nat h' (w_local w)) (w_iter w)).
+    set (s2 := set_wls _ _).
+    assert (F2 : exists w2, find_w (wls s2) wd = Some w2 /\ w_iter w2 = true /\ (length (w_local w2) <= n)%nat /\
+                            (if inl then In h (w_local w2) else ~ In h (w_local w2))).
+    { unfold s2. cbn [wls set_wls upd_e set_ehs]. rewrite find_upd_w by auto.
+      destruct (Z.eqb_spec wd wd') as [E|E]; [|exists w; auto].
+      rewrite <- E, Fw. cbn. exists (g w). split; auto. cbn [g w_iter w_local]. split; auto.
+      split; [pose proof (length_rm_nat h' (w_local w)); lia|].
+      destruct inl; rewrite in_rm_nat; [split; auto; intros X; apply (Ne eq_refl); auto|tauto]. }
+    destruct F2 as (w2 & F2 & I2 & L2 & P2).
+    unfold maybe_free. destruct (find_w (wls s2) wd') as [w0|] eqn:F0; cbn [fst]; [|exists w2; auto].
+    destruct (negb (w_iter w0) && match w_hs w0 with [] => true | _ => false end) eqn:Cnd; cbn [fst];
+      [|exists w2; auto].
+    destruct (Z.eq_dec wd wd') as [E|E].
+    + rewrite <- E, F2 in F0. injection F0 as <-. rewrite I2 in Cnd. discriminate.
+    + exists w2. cbn [wls set_wls]. rewrite find_del_other by auto. auto.
+  - intros N. unfold ev_stop. destruct (negb (e_active (gete s h'))); auto.
+    rewrite gete_maybe_free. change (gete (set_wls ?a ?b) h) with (gete a h). rewrite gete_upd_e.
+    destruct (Nat.eqb_spec h' h); [congruence|reflexivity].
+Qed.
+
+Lemma Tr_iapi wd h n inl s o :
+  (inl = true -> ~ touches h o) -> Tr wd h n inl s ->
+  Tr wd h n inl (fst (iapi s o)) /\ (inl = true -> gete (fst (iapi s o)) h = gete s h).
+Proof.
+  intros NT T. pose proof T as (M & w & Fw & Iw & Ln & P).
+  assert (Act : inl = true -> e_active (gete s h) = true).
+  { intros ->. destruct M as (_ & Mm & _). apply (Mm wd w h Fw). right. exact P. }
+  destruct o; cbn [iapi].
+  - (* IInit *)
+    cbn [fst]. split.
+    + split; [apply (Mem_iapi s IInit M)|]. exists w. auto.
+    + intros E. unfold gete, set_ehs. cbn [ehs]. apply app_nth1. apply active_lt. fold (gete s h). auto.
+  - (* IStart *)
+    destruct (ivalid s h0 && negb (e_closing (gete s h0))) eqn:G; [|cbn [fst]; auto].
+    pose proof (Mem_iapi s (IStart h0 cb base wd0) M) as MM. cbn [iapi] in MM. rewrite G in MM.
+    unfold ev_start in *.
+    destruct (e_active (gete s h0)) eqn:A0; [cbn [fst]; auto|].
+    destruct (wd0 <? 0); [cbn [fst]; auto|]. cbn [fst] in *.
+    set (s1 := match find_w (wls s) wd0 with Some _ => s | None => _ end) in *.
+    assert (F1 : find_w (wls s1) wd = Some w).
+    { unfold s1. destruct (find_w (wls s) wd0); auto. cbn [wls set_wls]. rewrite find_app, Fw. reflexivity. }
+    split.
+    + split; [exact MM|]. cbn [wls upd_e set_ehs set_wls]. rewrite find_upd_w by auto.
+      destruct (Z.eqb_spec wd wd0) as [E0|E0]; [|exists w; auto]. rewrite <- E0, F1. cbn.
+      eexists. split; [reflexivity|]. cbn [w_iter w_local]. auto.
+    + intros E. rewrite gete_upd_e.
+      destruct (Nat.eqb_spec h0 h) as [->|N]; [rewrite (Act E) in A0; discriminate|].
+      unfold gete. cbn [ehs set_wls]. unfold s1. destruct (find_w (wls s) wd0); reflexivity.
+  - (* IStop *)
+    destruct (ivalid s h0 && negb (e_closed (gete s h0))); [|cbn [fst]; auto].
+    assert (Ne : inl = true -> h0 <> h).
+    { intros E X. apply (NT E). left. congruence. }
+    destruct (Tr_stop wd h n inl s h0 Ne T) as [T1 G1].
+    destruct (ev_stop s h0) as [s1 ev]. cbn [fst] in *. split; auto.
+  - (* IClose *)
+    destruct (ivalid s h0 && negb (e_closing (gete s h0))); [|cbn [fst]; auto].
+    assert (Ne : inl = true -> h0 <> h).
+    { intros E X. apply (NT E). right. congruence. }
+    unfold ev_close. set (s0 := upd_e s h0 _).
+    assert (T0 : Tr wd h n inl s0).
+    { split; [apply Mem_upd_e_keep; auto|]. exists w. auto. }
+    destruct (Tr_stop wd h n inl s0 h0 Ne T0) as [T1 G1].
+    destruct (ev_stop s0 h0) as [s1 ev]. cbn [fst] in *. split.
+    + destruct T1 as (M1 & X). split; [exact M1|exact X].
+    + intros E. change (gete (set_eclosing s1 (h0 :: eclosing s1)) h) with (gete s1 h).
+      rewrite (G1 (Ne E)). unfold s0. rewrite gete_upd_e.
+      destruct (Nat.eqb_spec h0 h); [exfalso; apply (Ne E); auto|reflexivity].
+  - cbn [fst]. auto.
+Qed.
+
+Lemma Tr_iapis wd h n inl os : forall s,
+  (inl = true -> Forall (fun o => ~ touches h o) os) -> Tr wd h n inl s ->
+  Tr wd h n inl (fst (iapis s os)) /\ (inl = true -> gete (fst (iapis s os)) h = gete s h).
+Proof.
+  induction os as [|o os IH]; intros s NT T; cbn [iapis]; [auto|].
+  assert (NT1 : inl = true -> ~ touches h o) by (intros E; specialize (NT E); inversion NT; auto).
+  assert (NT2 : inl = true -> Forall (fun o => ~ touches h o) os) by (intros E; specialize (NT E); inversion NT; auto).
+  destruct (Tr_iapi wd h n inl s o NT1 T) as [T1 G1].
+  destruct (iapi s o) as [s1 e1]. cbn [fst] in *.
+  destruct (IH s1 NT2 T1) as [T2 G2].
+  destruct (iapis s1 os) as [s2 e2]. cbn [fst] in *. split; auto.
+  intros E. rewrite (G2 E). auto.
+Qed.
+
+Lemma loop_zero wd h name bits beh fuel : forall s cnt n,
+  Tr wd h n false s -> cbs_of h (snd (fst (dispatch_loop fuel s wd name bits beh cnt))) = [].
+Proof.
+  induction fuel as [|f IH]; intros s cnt n T; cbn [dispatch_loop]; auto.
+  destruct T as (M & w & Fw & Iw & Ln & P). rewrite Fw.
+  destruct (w_local w) as [|h0 rest] eqn:Lw; auto.
+  set (s1 := set_wls s _).
+  assert (T1 : Tr wd h n false s1).
+  { split; [apply (Mem_loop_step s wd w h0 rest); auto|].
+    unfold s1. cbn [wls set_wls]. rewrite find_upd_w by auto. rewrite Z.eqb_refl, Fw. cbn.
+    eexists. split; [reflexivity|]. cbn [w_iter w_local]. split; auto. split; [cbn in Ln; lia|].
+    intros X. apply P. right. exact X. }
+  destruct (Tr_iapis wd h n false (beh cnt) s1 (fun E => ltac:(discriminate)) T1) as [T2 _].
+  pose proof (iapis_no_cb h (beh cnt) s1) as Z.
+  destruct (iapis s1 (beh cnt)) as [s2 e2]. cbn [fst snd] in *.
+  pose proof (IH s2 (S cnt) n T2) as Y.
+  destruct (dispatch_loop f s2 wd name bits beh (S cnt)) as [[s3 e3] n3]. cbn [fst snd] in *.
+  cbn [cbs_of filter]. destruct (Nat.eqb_spec h h0) as [->|N].
+  - exfalso. apply P. left. reflexivity.
+  - fold (cbs_of h (e2 ++ e3)). rewrite cbs_of_app, Z, Y. reflexivity.
+Qed.
+
+Lemma loop_one wd h name bits beh fuel : forall s cnt,
+  (forall k, Forall (fun o => ~ touches h o) (beh k)) ->
+  Tr wd h fuel true s ->
+  cbs_of h (snd (fst (dispatch_loop fuel s wd name bits beh cnt))) =
+  [ICb h (e_cb (gete s h)) name bits true].
+Proof.
+  induction fuel as [|f IH]; intros s cnt NT T.
+  - destruct T as (_ & w & _ & _ & Ln & P). destruct (w_local w); [destruct P|cbn in Ln; lia].
+  - cbn [dispatch_loop]. pose proof T as (M & w & Fw & Iw & Ln & P). rewrite Fw.
+    destruct (w_local w) as [|h0 rest] eqn:Lw; [destruct P|].
+    set (s1 := set_wls s _).
+    assert (M1 : Mem s1) by (apply (Mem_loop_step s wd w h0 rest); auto).
+    assert (F1 : find_w (wls s1) wd = Some (mkW (w_wd w) (w_base w) (w_hs w ++ [h0]) rest (w_iter w))).
+    { unfold s1. cbn [wls set_wls]. rewrite find_upd_w by auto. rewrite Z.eqb_refl, Fw. reflexivity. }
+    destruct (Nat.eq_dec h0 h) as [->|N].
+    + (* h's turn *)
+      assert (Nr : ~ In h rest).
+      { destruct M as (_ & _ & NL). pose proof (NL wd w Fw) as X. rewrite Lw in X.
+        apply NoDup_remove_2 in X. intros I. apply X. apply in_app_iff. auto. }
+      assert (T1 : Tr wd h f false s1).
+      { split; [exact M1|]. eexists. split; [exact F1|]. cbn [w_iter w_local]. split; auto.
+        split; [cbn in Ln; lia|exact Nr]. }
+      destruct (Tr_iapis wd h f false (beh cnt) s1 (fun E => ltac:(discriminate)) T1) as [T2 _].
+      pose proof (iapis_no_cb h (beh cnt) s1) as Z.
+      destruct (iapis s1 (beh cnt)) as [s2 e2]. cbn [fst snd] in *.
+      pose proof (loop_zero wd h name bits beh f s2 (S cnt) f T2) as Y.
+      destruct (dispatch_loop f s2 wd name bits beh (S cnt)) as [[s3 e3] n3]. cbn [fst snd] in *.
+      cbn [cbs_of filter]. rewrite Nat.eqb_refl. fold (cbs_of h (e2 ++ e3)).
+      rewrite cbs_of_app, Z, Y. cbn [app].
+      change (gete s1 h) with (gete s h).
+      destruct M as (_ & Mm & _). destruct (Mm wd w h Fw) as [A _]; [right; rewrite Lw; left; reflexivity|].
+      rewrite A. reflexivity.
+    + assert (Ir : In h rest) by (destruct P as [X|X]; [congruence|exact X]).
+      assert (T1 : Tr wd h f true s1).
+      { split; [exact M1|]. eexists. split; [exact F1|]. cbn [w_iter w_local]. split; auto.
+        split; [cbn in Ln; lia|exact Ir]. }
+      destruct (Tr_iapis wd h f true (beh cnt) s1 (fun _ => NT cnt) T1) as [T2 G2].
+      pose proof (iapis_no_cb h (beh cnt) s1) as Z.
+      destruct (iapis s1 (beh cnt)) as [s2 e2]. cbn [fst snd] in *.
+      pose proof (IH s2 (S cnt) NT T2) as Y.
+      destruct (dispatch_loop f s2 wd name bits beh (S cnt)) as [[s3 e3] n3]. cbn [fst snd] in *.
+      cbn [cbs_of filter]. destruct (Nat.eqb_spec h h0); [congruence|].
+      fold (cbs_of h (e2 ++ e3)). rewrite cbs_of_app, Z, Y. cbn [app].
+      rewrite (G2 eq_refl). reflexivity.
+Qed.
+
+(* C17_event_reaches_all: for every event, every handle h that is in the event's watcher list
+   when dispatch starts and that no callback stops or closes gets exactly one callback, with the
+   event's name (or the list's base name) and the mapped bits -- whatever else the callbacks do
+   (start/stop/close of any other handle on the same path or elsewhere, start of h itself) *)
+Theorem event_reaches_all :
+  forall s wd mask nm w beh cnt h,
+  Mem s -> find_w (wls s) wd = Some w -> In h (w_hs w) ->
+  (forall k, Forall (fun o => o <> IStop h /\ o <> IClose h) (beh k)) ->
+  cbs_of h (snd (fst (dispatch_one s (wd, mask, nm) beh cnt))) =
+  [ICb h (e_cb (gete s h)) (match nm with Some n => n | None => w_base w end) (ev_bits mask) true].
+Proof.
+  intros s wd mask nm w beh cnt h M Fw Ih NT.
+  assert (NT' : forall k, Forall (fun o => ~ touches h o) (beh k)).
+  { intros k. eapply Forall_impl; [|apply (NT k)]. intros o [A B] [X|X]; auto. }
+  unfold dispatch_one. rewrite Fw.
+  set (s1 := set_wls s _).
+  assert (T1 : Tr wd h (length (w_hs w)) true s1).
+  { split.
+    - unfold s1. apply Mem_upd_w_same_members; auto.
+      + intros w0 h0 I. cbn [w_hs w_local] in I. destruct I as [[]|I]; auto.
+      + intros w0 N. cbn [w_hs w_local app]. apply NoDup_app_l in N. exact N.
+    - unfold s1. cbn [wls set_wls]. rewrite find_upd_w by auto. rewrite Z.eqb_refl, Fw. cbn.
+      eexists. split; [reflexivity|]. cbn [w_iter w_local]. auto. }
+  pose proof (loop_one wd h (match nm with Some n => n | None => w_base w end) (ev_bits mask) beh
+                       (length (w_hs w)) s1 cnt NT' T1) as X.
+  destruct (dispatch_loop (length (w_hs w)) s1 wd _ (ev_bits mask) beh cnt) as [[s2 e2] n2]. cbn [fst snd] in *.
+  set (s3 := set_wls s2 _).
+  assert (Z : cbs_of h (snd (maybe_free s3 wd)) = []).
+  { unfold maybe_free. destruct (find_w (wls s3) wd) as [wz|]; auto.
+    destruct (negb (w_iter wz) && _); reflexivity. }
+  destruct (maybe_free s3 wd) as [s4 e4]. cbn [fst snd] in *.
+  rewrite cbs_of_app, X, Z. reflexivity.
+Qed.
+
+Theorem Mem_irun : forall os s beh cnt, Mem s -> Mem (fst (irun s os beh cnt)).
+Proof.
+  induction os as [|o os IH]; intros s beh cnt H; [exact H|].
+  destruct o; cbn [irun].
+  5:{ pose proof (dispatch_Mem evs s beh cnt H) as [X _].
+      destruct (dispatch s evs beh cnt) as [[s1 e1] n1]. cbn [fst] in *.
+      unfold run_eclosing. set (s2 := set_eclosing _ []).
+      assert (X2 : Mem s2) by exact (Mem_fold_closed (eclosing s1) s1 X).
+      pose proof (IH s2 beh n1 X2) as Y. destruct (irun s2 os beh n1) as [s3 e3]. exact Y. }
+  all: match goal with
+       | |- context [iapi ?s0 ?o] =>
+           pose proof (Mem_iapi s0 o H) as X; destruct (iapi s0 o) as [s1 e1]; cbn [fst] in X;
+           pose proof (IH s1 beh cnt X) as Y; destruct (irun s1 os beh cnt) as [s2 e2]; exact Y
+       end.
 Qed.
